@@ -138,6 +138,48 @@ def main():
     rwm = tlc.run("Wrap", "Wrap.cfg", workers=2, timeout=300, coverage=True)
     for act in ("Parse", "Instantiate", "Write", "Finish"):
         expect("Wrap action %s taken" % act, rwm.coverage.get(act, (0, 0))[1] > 0, rwm.coverage.get(act))
+    # ---- PyCall: a built module executes its plan; a plan whose expectation is altered is NOT matched
+    import layout as _lay
+    import pycallcheck
+    import pyexec
+    import shutil
+    pch = pyexec.ensure_pch()
+    ccs, _r = cases.simulate(n=10, seed=4, target=12, members=8, profile="call")
+    done = False
+    for c in ccs:
+        text = _lay.render(c["toks"])
+        ob = pycheck.observe(text)
+        if ob["outcome"] != "ok" or len(set(pycallcheck.class_cpps(ob["inst"]))) != len(pycallcheck.class_cpps(ob["inst"])):
+            continue
+        lex = pycheck.lex_facts(ob["inst"])
+        lex["st"] = {x["cpp"]: x["st"] for x in ob["spell"]}
+        plans, _rt = pycallcheck.plans_for([{"id": "m", "inst": ob["inst"], "lex": lex}])
+        plan = plans["m"]
+        idx = [k for k, st in enumerate(plan) if st["op"] in ("func", "method", "static", "new") and len(st["pos"]) >= 2 and st["pos"][0] != st["pos"][1]]
+        if not idx:
+            continue
+        d = tempfile.mkdtemp(prefix="selfx_")
+        try:
+            b = pyexec.build(d, text, c["tree"], pch)
+            expect("PyCall: the generated module builds against the rendered library", b[0] == "ok", b)
+            obs = pyexec.run_plan(d, plan)
+            bad = [pycallcheck.judge(st, o) for st, o in zip(plan, obs) if pycallcheck.judge(st, o)]
+            expect("PyCall: every step of the plan matches the real module (%d steps)" % len(plan), not bad, bad[:3])
+            plan2 = copy.deepcopy(plan)
+            k = idx[0]
+            plan2[k]["pos"][0], plan2[k]["pos"][1] = plan2[k]["pos"][1], plan2[k]["pos"][0]      # the CALL changes, the expectation does not
+            obs2 = pyexec.run_plan(d, plan2)
+            expect("PyCall: swapping two arguments of one call is noticed at that step", pycallcheck.judge(plan2[k], obs2[k]) != "",
+                   (plan2[k], obs2[k]))
+            plan3 = copy.deepcopy(plan)
+            plan3[k]["log"] = [plan3[k]["log"][0].replace("(", "_other(", 1)]                       # another entity expected
+            expect("PyCall: an expectation naming another entity is not matched",
+                   pycallcheck.judge(plan3[k], obs[k]) == "C04:binding-does-not-forward-as-declared", obs[k])
+        finally:
+            shutil.rmtree(d, ignore_errors=True)
+        done = True
+        break
+    expect("PyCall: a call-profile module with a two-argument call was found", done)
     # ---- coverage of the machine specs (vacuity)
     cfg = cases.EXH_CFG.format(universe="ns", typedepth=0, maxargs=0, target=3, members=1, rich="FALSE", maxitems=3)
     rc = tlc.run("IfaceExh", cfg_text=cfg, workers=1, timeout=600, coverage=True)
